@@ -26,6 +26,8 @@ type Profile struct {
 	ClaimPct   int      // percent with a claim field (default 30)
 	MixedPct   int      // percent of sequence ops aimed at the task/epic two-level interaction
 	ChopPct    int      // percent of steps that strip the final newline off the log (a complete last event, cut one byte short)
+	RedatePct  int      // percent of steps that re-date the last command's events into the future (it ran on a host whose clock is ahead; the log came over by git)
+	DebrisPct  int      // percent of steps that leave crash debris that is not state: a stale temp file of a rewrite, an unparsable fragment after the last newline
 }
 
 func (p Profile) epicPct() int {
@@ -395,6 +397,13 @@ func genOp(t *rapid.T, w *World, pre *Snapshot, prof Profile) Op {
 	}
 	if w.StepNo >= 2 && len(pre.Items) > 0 && pct(t, prof.ChopPct, "chop") {
 		return Op{Kind: "chop_newline"}
+	}
+	if w.StepNo >= 2 && w.Twin == nil && len(pre.Items) > 0 && pct(t, prof.RedatePct, "redate") {
+		return Op{Kind: "redate", Frac: float64(uni(t, 3, "redate.by"))}
+	}
+	if w.StepNo >= 2 && len(pre.Items) > 0 && pct(t, prof.DebrisPct, "debris") {
+		return Op{Kind: "debris", FaultKind: oneOf(t, []string{"tmp_prefix", "tmp_prefix", "tmp_bigger", "tmp_garbage", "fragment", "fragment"}, "debris.kind"),
+			Frac: float64(uni(t, 1000, "debris.frac")) / 1000}
 	}
 	kind := pickWeighted(t, weights, "kind")
 	op := Op{Kind: kind}
